@@ -219,6 +219,28 @@ TraceCmd ==
        /\ nskip' = IF Skipped(e) THEN nskip + 1 ELSE nskip
     /\ l' = l + 1
 
+\* the same non-idempotent write sent e.times times back to back through a forwarding follower: every
+\* acknowledged copy reaches the log once (Handed) and every node applies them all
+RECURSIVE Forwarded(_, _, _)
+Forwarded(R0, e, k) ==
+    IF k = 0 THEN R0
+    ELSE LET R2 == Rp!Submit(R0, e.node, e.db, [a |-> e.cmd, D |-> {}])
+             R3 == Rp!Deliver(R2, CHOOSE x \in R2.pend : x.id = R0.nid)
+         IN Forwarded(ApplyAll(R3, e.nodes, [n \in Members(e) |-> RNil]), e, k - 1)
+
+TraceBurst ==
+    /\ l <= Len(Trace) /\ Ev.ev = "burst"
+    /\ LET e  == Ev
+           R5 == Forwarded(Clocked(e), e, e.times) IN
+       /\ Healthy(e) /\ ~e.lost /\ Members(e) = R.members /\ e.lead = R.leader
+       /\ Rp!Role(R, e.node) = "forward" /\ e.oks = e.times
+       /\ \A n \in Members(e) : e.napp[n] = e.times
+       /\ \A n \in Members(e) : Norm(R5.data[n], e.now[n]) = Norm(Obs(e)[n], e.now[n])
+       /\ Rp!Handed(R5) /\ Rp!AppendOnly(R, R5)
+       /\ AgreeOK(e, PrevDiff \cup (IF Named(e) \cap PrevDiff # {} THEN Named(e) ELSE {}))
+       /\ R' = Adopt(R5, e)
+    /\ l' = l + 1 /\ UNCHANGED <<hot, dev, nskip>>
+
 \* the leader's expiry sampler: every key it removes was past its deadline on the leader's clock, the
 \* removal is a delete-key entry that every node applies
 TraceSample ==
@@ -314,7 +336,7 @@ TraceStuck ==
     /\ FALSE
     /\ UNCHANGED vars
 
-Next == TraceReset \/ TraceCmd \/ TraceSample \/ TraceJoin \/ TraceTransfer \/ TraceStop \/ TraceRestore \/ TraceStuck
+Next == TraceReset \/ TraceCmd \/ TraceBurst \/ TraceSample \/ TraceJoin \/ TraceTransfer \/ TraceStop \/ TraceRestore \/ TraceStuck
 
 Spec == Init /\ [][Next]_vars
 
